@@ -132,6 +132,33 @@ func (t *Terms) errShape(v ssa.Value, depth int) string {
 		case "errors.New":
 			return "errors.New"
 		}
+		// an error constructed by a helper of the module: when every return of the helper has the
+		// same closed shape (a sentinel, a wrap of one, a struct literal over those — nothing that
+		// depends on the helper's inputs), the call has that shape (the "extract the error
+		// construction into a function" refactoring)
+		if cal := StaticCallee(&x.Call); cal != nil && cal.Blocks != nil && t.P != nil && t.P.InModule(cal) && depth < 4 {
+			if res := cal.Signature.Results(); res.Len() == 1 {
+				ct := NewTerms(t.P, cal)
+				shape, same := "", true
+				n := 0
+				for _, b := range cal.Blocks {
+					r, isRet := b.Instrs[len(b.Instrs)-1].(*ssa.Return)
+					if !isRet || b == cal.Recover || (b.Index != 0 && len(b.Preds) == 0) {
+						continue
+					}
+					n++
+					s := ct.errShape(r.Results[0], depth+1)
+					if shape == "" {
+						shape = s
+					} else if shape != s {
+						same = false
+					}
+				}
+				if n > 0 && same && shape != "nil" && !strings.Contains(shape, "prop(") {
+					return shape
+				}
+			}
+		}
 	case *ssa.Alloc:
 		// &T{…}: collect field stores
 		if st, ok := deref(x.Type()).Underlying().(*types.Struct); ok && x.Referrers() != nil {
